@@ -732,9 +732,16 @@ func (c *c20) literalOne(r *fw.Rec, rng *rand.Rand) {
 	lit := c20GenLiteral(rng)
 	ref := c20RefLiteral(lit)
 	src := "v := " + lit
-	f, err := parseSrc([]byte(src))
+	buf := []byte(src)
+	f, err := parseSrc(buf)
 	r.Eval()
 	r.Inc("c:literals")
+	if string(buf) != src {
+		// the literal no longer denotes anything if reading it rewrites the text it was read from
+		r.Violate("c:source-modified", "parsing a literal modified the source bytes it was given (a second parse of the same buffer sees another text)",
+			map[string]interface{}{"literal": lit, "literal_hex": fmt.Sprintf("%x", lit), "buffer_after_hex": fmt.Sprintf("%x", buf)})
+		return
+	}
 	r.Distinct("c", lit)
 	detail := map[string]interface{}{"literal": lit, "literal_hex": fmt.Sprintf("%x", lit), "reference": map[string]interface{}{"accepted": ref.ok, "value": ref.dump, "why": ref.why}}
 	if p, ok := isPanic(err); ok {
